@@ -710,7 +710,10 @@ pub fn c17_levels_and_histories(ctx: &mut Ctx) {
         }
         for (what, text) in &texts {
             for (nm, needle) in needles {
-                if !contains(&own, needle) && contains(text.as_bytes(), needle) {
+                // an error text may echo what the client sent; a log record written by the library is the library's own
+                // statement: the valid signature has no business there even when the client presented it in another rendering
+                let echo_allowed = !what.starts_with("log record");
+                if !(echo_allowed && contains(&own, needle)) && contains(text.as_bytes(), needle) {
                     ctx.rep.fail(Failure { kind: "ORACLE", op: "OBS".into(), class: class.into(), input: format!("{} — {}", what_for, sent.describe()), imp: format!("{}: {}", what, text.chars().take(300).collect::<String>()), model: String::new(), spec: nm.clone(), clause: format!("C17: {} appears in {}", nm, what) });
                 }
             }
@@ -730,10 +733,29 @@ pub fn c17_levels_and_histories(ctx: &mut Ctx) {
             format!(" {}", good),
             format!("{}\t", good.to_uppercase()),
             { let mut b = good.clone().into_bytes(); b[10] = if b[10] == b'0' { b'1' } else { b'0' }; String::from_utf8(b).unwrap() },
+            // white space that is not ASCII white space (header bytes 0xA0 / 0x85), and escaped white space in the query
+            format!("{}\u{a0}", good),
+            format!("\u{85}{}", good),
+            format!("%0A{}", good),
+            format!("{}%20", good),
+            format!("{}%09", good.to_uppercase()),
         ];
         for (lv_i, level) in [log::LevelFilter::Debug, log::LevelFilter::Info, log::LevelFilter::Warn, log::LevelFilter::Error].iter().enumerate() {
             let mut c = s.case.clone();
-            set_signature(&mut c, &good, &renderings[(i + lv_i) % renderings.len()]);
+            let rendering = &renderings[(i + lv_i) % renderings.len()];
+            let header_carrier = i % 2 == 0;
+            if (rendering.contains('%') && header_carrier) || (!rendering.is_ascii() && !header_carrier) {
+                continue;           // escapes belong to the query carrier, raw high bytes to the header carrier
+            }
+            set_signature(&mut c, &good, rendering);
+            for (_, v) in c.headers.iter_mut() {
+                // U+00A0 / U+0085 stand for the single bytes 0xA0 / 0x85
+                if let Ok(t) = std::str::from_utf8(v) {
+                    if t.contains('\u{a0}') || t.contains('\u{85}') {
+                        *v = latin1_bytes(t);
+                    }
+                }
+            }
             if c.uri == s.case.uri && c.headers == s.case.headers {
                 continue;
             }
